@@ -195,6 +195,14 @@ class ConvSim(WorldBase):
             if touched:
                 evs.append(["touch", {"obj": key, "mode": g.choice(["insert", "leaf", "leaf"])}])
             evs.append(["load", {"obj": key, "path": path}])
+            if not touched and g.random() < 0.5:
+                # another object is written to the path behind this one's back, then this one is dumped there again
+                if pre == "none":
+                    evs.append(["build", {"key": key + "y", "kind": kind if kind != "rank0" else "tensor", "shape": [2],
+                                          "spec": [[1, 7]], "name": "other", "value": 1}])
+                evs.append(["dump", {"obj": key + ("y" if pre == "none" else "x"), "path": path}])
+                evs.append(["dump", {"obj": key, "path": path}])
+                evs.append(["load", {"obj": key, "path": path}])
             if touched and g.random() < 0.7:
                 # ... and the updated object is dumped again (same path or a new one): that file holds the new state
                 path2 = g.choice([path, f"{key}b.yaml"])
@@ -306,14 +314,48 @@ class ConvSim(WorldBase):
                        f"a second uncompress({dims}), after the caller edited the first result, returned {again}; the "
                        f"original nest is {nest}")
             self.probe("nest_uncompressed_twice")
+            # ... and with a larger shape: the nest padded with the default
+            dims2 = [x + 1 for x in dims]
+
+            def pad(n, lvl):
+                if lvl == len(dims) - 1:
+                    return list(n) + [default] * (dims2[lvl] - len(n))
+                rows = [pad(x, lvl + 1) for x in n]
+                filler = default
+                for k in range(len(dims) - 1, lvl, -1):
+                    filler = [filler] * dims2[k] if k == len(dims) - 1 else [copy.deepcopy(filler) for _ in range(dims2[k])]
+                return rows + [copy.deepcopy(filler) for _ in range(dims2[lvl] - len(rows))]
+            try:
+                bigger = root.uncompress(list(dims2))
+            except Exception as e:
+                bigger = f"raised {type(e).__name__}"
+            if bigger != pad(nest, 0):
+                self.V("C13", "C13.nest", "nest",
+                       f"uncompress({dims2}) after uncompress({dims}) returned {bigger}, expected the nest padded with "
+                       f"{default}: {pad(nest, 0)}")
         # (b) the dictionary form
         try:
-            f2 = Fiber.dict2fiber(root.fiber2dict())
+            d = root.fiber2dict()
+            d_before = repr(d)
+            f2 = Fiber.dict2fiber(d)
         except Exception as e:
             self.V("C13", "C13.dict", "nest", f"dictionary round trip raised {type(e).__name__}")
             return {"status": "exc"}
         if ob.enc_fiber(f2) != ob.enc_fiber(root):
             self.V("C13", "C13.dict", "nest", f"dict2fiber(fiber2dict(f)) differs from f for {nest}")
+        # the dictionary is the caller's: decoding leaves it as it was, and decoding it again gives an independent fiber
+        if repr(d) != d_before:
+            self.V("C13", "C13.dict", "nest", f"dict2fiber changed the dictionary it was given: {d_before[:80]} became {repr(d)[:80]}")
+        else:
+            try:
+                f3 = Fiber.dict2fiber(d)
+                common = set(ob.identity_set(f2)) & set(ob.identity_set(f3))
+                if ob.enc_fiber(f3) != ob.enc_fiber(root) or common:
+                    self.V("C13", "C13.dict", "nest",
+                           f"a second dict2fiber of the same dictionary gives {ob.enc_fiber(f3)} sharing {len(common)} objects "
+                           f"with the first decode; the fiber is {ob.enc_fiber(root)}")
+            except Exception as e:
+                self.V("C13", "C13.dict", "nest", f"second dict2fiber of the same dictionary raised {type(e).__name__}")
         self.probe("nest_roundtrip_checked")
         if not want:
             self.probe("nest_all_default")
